@@ -369,7 +369,7 @@ def one_config(job):
             k += 1
             if int(s.n_like) != nl_before:
                 dirty = False
-            phase = 'first' if k == 1 else ('after-bound' if len(s.bounds) != nb0 else ('end-exploration' if s.explored and not ex0 else ('sampling' if s.explored else 'exploration')))
+            phase = 'first' if k == 1 else ('end-exploration' if s.explored and not ex0 else ('after-bound' if len(s.bounds) != nb0 else ('sampling' if s.explored else 'exploration')))
             out['phases'][phase] = out['phases'].get(phase, 0) + 1
             out['boundaries'] += 1
             if not os.path.exists(path):
@@ -462,11 +462,13 @@ def configs(tier, seed):
                 neural_network_kwargs=dict(hidden_layer_sizes=(12, 6), max_iter=100))
     cs = [dict(base), dict(base, n_networks=1, blob='float', n_live=80, family='periodic', periodic=[0], n_dim=3, discard_at_end=True),
           dict(base, blob='two', vectorized=True, n_batch=7, n_live=40, n_update=10, family='twomode'),
-          dict(base, prior_object=True, blob='vec3', family='halfspace', n_dim=3, toggles=3)]
+          dict(base, prior_object=True, blob='vec3', family='halfspace', n_dim=3, toggles=3),
+          # tiny live set: empty shells are removed when exploration ends (the file must be renumbered with the memory)
+          dict(base, n_live=10, n_update=1, n_batch=2, blob='float', discard_at_end=True, n_shell=5, n_eff=100, max_boundaries=500 if tier == 'quick' else 3000)]
     if tier == 'thorough':
         cs += [dict(base, blob='int', n_batch=1, n_live=30, n_update=8, n_eff=80), dict(base, family='funnel', n_dim=3, n_live=100, n_batch=50, blob='vec1'),
                dict(base, n_networks=2, n_live=100, n_dim=4, blob='none'), dict(base, family='plateau', blob='float', discard_at_end=True),
-               dict(base, periodic=[0, 1], family='periodic', n_dim=2, n_networks=1, toggles=2), dict(base, n_live=10, n_update=1, n_batch=2, blob='float', discard_at_end=True, n_shell=5, n_eff=100)]
+               dict(base, periodic=[0, 1], family='periodic', n_dim=2, n_networks=1, toggles=2), dict(base, n_live=12, n_update=1, n_batch=3, blob='two', discard_at_end=False, n_shell=5, n_eff=100, family='twomode')]
     return cs
 
 
